@@ -308,6 +308,56 @@ PROPS = {
                     "the link clauses 'at most one detach per attach' and 'answer in kind' are false of the code in named corner cases: proved with the exact exception, "
                     "refutation witnesses in Props/C13.v, recorded as known findings"],
     },
+    "C16": {
+        "class_prefixes": ["c16-", "harness-crash"],
+        "subs": [
+            {"name": "rx", "n_quick": 1500, "n_thorough": 40000, "model": "coq/Link/Receiver.v",
+             "rule": "the receiving-link scripts of C09/C10 (recv and rcancel = drop of the pending recv() at any point between frames, re-issue later)"},
+            {"name": "txcm", "n_quick": 400, "n_thorough": 6000, "model": "coq/Link/SendCancel.v",
+             "rule": "sender against a scripted receiver, every send() dropped when it is still pending at its k-th poll (k = 1..8, or never): one call dropped at every k "
+                     "between two complete ones x link->session capacity 1/2/default x max-message-size unset/100/200, plus random scripts of 3..9 (thorough 3..13) calls of "
+                     "10..500 bytes with credit up front / late / as a window, pipes of 64..512 bytes and peers that stop reading for a while; the oracle searches the model's "
+                     "drop points for an assignment that reproduces the transfers the peer saw (tags, pieces, more flags, message identity by content hash)"},
+            {"name": "txc", "n_quick": 300, "n_thorough": 4000, "oracle": False,
+             "rule": "send side as for txcm plus messages larger than the frame size and the select!-loop pattern (re-send after each cancellation); recv side: recv() "
+                     "dropped at its k-th poll (k cycled from a list) and re-issued until everything is returned, auto-accept on/off, credit auto/manual, bursts, "
+                     "capacities 1/2/4/default; direct oracle: nothing lost, duplicated, reordered, partial or corrupted, no starvation, link usable"},
+        ],
+        "rule": "rx: see C09. txcm: a case is one script run against the real Sender (client, scripted byte-level receiver, paused clock); compared: the sequence of "
+                "transfers the peer saw against the model run with the drop points found by the oracle's search (no assignment = disagreement); non-trivial = a call was "
+                "dropped and at least two deliveries completed. txc: direct oracle on the concrete trace.",
+        "trusted": ["model scope: Link/Receiver.v (see C09/C10) and Link/SendCancel.v: sender_link.rs send_payload = get_delivery_tag_or_detached + "
+                    "send_transfer_without_modifying_unsettled_map (+ the max-message-size split) at the granularity of await points",
+                    "the drop-point search of the oracle driver (extraction/driver.ml, tag txcm: depth-first with prefix pruning) is part of the trusted base",
+                    "CancelAfter (drop at the k-th pending poll) and the scripted peers of harness/src/txc.rs"],
+        "assumptions": ["the peer is honest (grants credit, settles, may stop reading for a while)", "txcm: messages below the frame size (one frame per link-level transfer)"],
+        "partial": ["recv() with auto-accept has an await point (the disposition) that Link/Receiver.v does not model: decided on the implementation by the txc oracle only (known finding)",
+                    "'never partially' and 'not starved of credit' are false of the code in two named situations: proved with the exact exception, refutation witnesses in Props/C16.v, known findings"],
+    },
+    "C18": {
+        "class_prefixes": ["c18-", "harness-crash"],
+        "subs": [
+            {"name": "txnm", "n_quick": 500, "n_thorough": 5000, "model": "coq/Txn/Manager.v",
+             "rule": "listener with a control-link acceptor and a receiving application on every accepted link, against a scripted byte-level controller: every script of length <= 3 "
+                     "(thorough <= 4) over the model's alphabet after prefixes with 0, 1 and 2 declares and with two control links (control link attach / closing detach, data link "
+                     "attach, declare, post under a live / finished / never-issued id or none, pre-settled or not, commit, rollback, discharge of unknown ids, discharge through the "
+                     "other control link, drop of session / connection), plus random scripts of 8..30 (thorough 8..60) actions with 2-3 links and about 3 live transactions"},
+            {"name": "txn", "n_quick": 1500, "n_thorough": 30000, "oracle": False,
+             "rule": "txn-l: the listener scripts with the full alphabet (bursts of >100 posts, two-frame posts, non-closing control-link detach, receiver links, retirements); "
+                     "txn-c: Controller / Transaction / OwnedTransaction (declare, post, commit, rollback, drop, accept/reject/release under a transaction) against a scripted "
+                     "coordinator answering declared / accepted / rejected(cond) / transactional accepted / rejected / no answer + detach, id pool of 1..32 bytes; direct oracle: "
+                     "atomicity, isolation, order, fresh ids, single discharge, refusals, right id and fail flag on the wire, outcome reported, no hang"},
+        ],
+        "rule": "txnm: a case is one script run against the real listener (paused clock, one action per barrier) and through the extracted Coq step function; compared per action: "
+                "the listener's answers (attached, declared(k), accepted, rejected(cond), provisional(k), end(cond)) and the deliveries the application has received per link; "
+                "non-trivial = a declare plus a delivering commit, a rejection or an unknown-id end. txn: direct oracle on the concrete trace.",
+        "trusted": ["model scope: see the header of coq/Txn/Manager.v: transaction/{session.rs, manager.rs, coordinator.rs} + acceptor/session.rs at the granularity of whole actions; "
+                    "transaction ids abstracted to a counter (the code draws a random UUID and redraws against live ids: freshness holds up to UUID collision)",
+                    "scripted controller / coordinator of harness/src/txn.rs"],
+        "assumptions": ["at most 128 live transactions per control link and fewer than 100 posts per script in txnm (the full alphabet is in txn)", "one action per quiescence barrier"],
+        "partial": ["the controller-side clause (right id / fail flag on the wire, outcome reported) and transactional retirements are decided by the direct oracle only",
+                    "known findings: link credit used by rolled-back posts is never given back; a non-closing detach of the control link leaves its transactions alive"],
+    },
     "C19": {
         "class_prefixes": ["c19-", "harness-crash"],
         "subs": [
@@ -318,7 +368,7 @@ PROPS = {
             {"name": "sasl", "n_quick": 300, "n_thorough": 20000, "oracle": False,
              "rule": "listener (PLAIN, SCRAM-SHA-1/256/512, own and library credential stores) against a scripted byte-level client: all action sequences up to length 4 "
                      "over 10-letter alphabets, 22 PLAIN credential variants x 5 credential pairs, 12 mechanism names, 11 client-first and 14 client-final variants, malformed, "
-                     "truncated, fragmented and out-of-turn frames, the library's own client with right/wrong credentials; SCRAM client against a scripted server: 43 "
+                     "truncated, fragmented and out-of-turn frames, the library's own client with right/wrong credentials; SCRAM client against a scripted server: 45 "
                      "tamperings x 3 hash variants, 12 iteration-count strings, salts; the scripted side's SCRAM arithmetic is implemented in the harness (RFC 5802 test vectors pass)"},
         ],
         "rule": "saslm: abstract case = mechanism family + action sequence, run against the real listener and through the extracted Coq step function; compared per step: "
